@@ -135,6 +135,16 @@ CLAIMED = {
             "documented domains or InvalidCodecFeaturesError is raised.",
             "Trusted: symx, CrossHair 0.0.110, z3; int/csv.reader shadows for the symbolic-numeral cases. CSV tokenisation (C module) is outside.",
             "CrossHair contracts + symbolic execution of the real CSV reader with symbolic numeral cells (symx)", "3 C28"),
+    "C21": (EX,
+            "A seeded catalogue of generated serdes programs (primitive fields, byte alignment, bounded blocks with padding, nested and "
+            "typed subcontexts, lists of primitives and of subcontexts, computed values; depth <= 3) plus curated combinations is chosen by "
+            "a solver-enumerated selector; every fixed-width leaf and the first three exp-Golomb leaves of the description are symbolic "
+            "bits, so each program is round-tripped through the real Serialiser and Deserialiser for all values at once (z3 equality per "
+            "leaf); every extra key / extra list element / removed needed value and a twice-used target must be rejected; typed contexts "
+            "must stay attached to the tree.",
+            "Programs are sampled from a grammar (72 quick / 500 thorough), not exhausted; selector-symbolic in the programs, symbolic in the "
+            "values. Trusted: symx, z3, the description builder in checks/c21.py.",
+            "selector-symbolic program catalogue + symbolic execution of the real SerDes classes with symbolic values (symx)", "3 C21"),
     "C20": (MC,
             "Symbolic execution of the real BitstreamReader/BitstreamWriter and of the decoder's read_* functions on the same buffer of "
             "symbolic bits: per path (one per exp-Golomb length class / end-of-file point / block length) z3 proves equal values, equal tell(), "
@@ -164,7 +174,6 @@ CLAIMED = {
 NA = {
     "C05": "quantifies over whole test-case generator runs (numpy pictures, PIL, generator registry) over an enumerated configuration space; no value stays symbolic from configuration to verdict, so a solver would decide nothing",
     "C16": "quantifies over level-table structures whose cells live in hash-keyed ValueSets (every symbolic cell is concretised) and the full encode->validate pipeline; the real-level part is checked under C15",
-    "C21": "quantifier is over serdes programs; SerDes control flow does not depend on data values, so symbolic execution degenerates to program enumeration; the vc2 programs themselves are exercised symbolically under C06/C07",
     "C22": "picture generators are numpy float pipelines (matmul, power, linalg.inv, PIL resampling): C-extension boundaries concretise every input and floats are out of reach of the engine",
     "C23": "byte packing is inline numpy over uint8/object arrays, metadata goes through json and the file system; a numpy stand-in would re-model the library rather than execute the code",
     "C24": "quantifier is over OS process schedules and hash seeds; nothing a solver can encode from the Python source",
